@@ -511,10 +511,13 @@ func (prop) run(c core.Case) core.Outcome {
 		out.Checks = append(out.Checks,
 			core.Check{Tag: "M", What: "validate-saved", Req: "validate " + core.Hex(saved), Exp: exp})
 		if res.class == "err" {
-			// The tool cannot read back what it saved.  That is a violation of C02 ("every written image
-			// is structurally valid"), not of this property, which speaks about validate on saved images
-			// that exist as trees: recorded in the histogram, judged by C02.
+			// The tool cannot read back what it saved: `utk saved.rom validate` ends with an error on an
+			// image the tool itself has written — the first clause of the property.  (Round 1 left this to
+			// C02, whose independent reader accepts such an image when it is valid by the format: a 24-byte
+			// erased tail, DESIGN §8 row 38, repaired by fixes/C02-erased-tail-24.)
 			out.Class = "edit:saved-unparseable"
+			out.Checks = append(out.Checks, core.Check{Tag: "O", What: "saved-validates", Exp: "parsed and validated without errors",
+				Got: "the saved image does not parse: " + clip(res.detail, 200), Sig: "saved-unparseable"})
 			return out
 		}
 		out.Checks = append(out.Checks, noFalseAlarm(res, "saved-validates"))
@@ -809,6 +812,7 @@ func (prop) Gen(r *rand.Rand, tier string) []core.Case {
 		nSound, nRaw, nExh, nSamp, nEdit, nSeq = 4000, 800, 700, 900, 1500, 1500
 		cs = append(cs, bigSeq())
 	}
+	cs = append(cs, bigShrinkSeq())
 	for i := 0; i < nSound; i++ {
 		cs = append(cs, imgCase("sound", drawSound(r, false), "1"))
 	}
